@@ -21,6 +21,15 @@ func verifGate(start, end int) {
 	}
 }
 
+// VerifGroupSent, when set, is called by every grouping worker right after its result has been received.
+var VerifGroupSent func(start, end int)
+
+func verifSent(start, end int) {
+	if g := VerifGroupSent; g != nil {
+		g(start, end)
+	}
+}
+
 // VerifLabels returns copies of the Fiat-Shamir labels of this package.
 func VerifLabels() [][]byte {
 	out := [][]byte{}
